@@ -36,6 +36,7 @@ inductive HOp where
   | accept (w : String) (b : Nat)
   | transmit (w : String) (b : Nat)
   | events (evs : List Event)
+  | chain (evs : List Event) (look : Nat)   -- emitted on chain: returned by the next `look` polls, confirmations growing
   | restart
   | acceptReport (ups : List (String × Nat))
   | transmitReport (ups : List (String × Nat))
@@ -83,6 +84,7 @@ def topOf (ids : Array String) (j : Json) : R TOp := do
     | "accept" => pure (HOp.accept (← asStr (fieldD j "w" (.str ""))) (← natF j "b"))
     | "transmit" => pure (HOp.transmit (← asStr (fieldD j "w" (.str ""))) (← natF j "b"))
     | "events" => pure (HOp.events (← listOf eventOf (fieldD j "evs" .null)))
+    | "chain" => pure (HOp.chain (← listOf eventOf (fieldD j "evs" .null)) (← asNat (fieldD j "look" (.num 1))))
     | "restart" => pure HOp.restart
     | "acceptReport" => pure (HOp.acceptReport (← listOf upOf (fieldD j "ups" .null)))
     | "transmitReport" => pure (HOp.transmitReport (← listOf upOf (fieldD j "ups" .null)))
@@ -138,6 +140,8 @@ structure Eng where
   sys      : Sys
   ilog     : List LogE            -- Ω log
   provider : List Event
+  chain    : List (Event × Nat × Nat) := []   -- look-back content: (event, polls since emission, polls left)
+  unknownVids : List String := []              -- events once skipped because no record existed
   start    : Nat                  -- start time of the running instance
   nextPoll : Nat
   polls    : List (Nat × Nat)     -- derived polls (time, #events), newest first
@@ -177,19 +181,25 @@ def boundaryTag (cfg : Cfg) (t now : Nat) : Option String :=
 /-- one derived poll of the running instance (plus the cache GC when it is due) -/
 def pollOnce (cfg : Cfg) (e : Eng) : Eng :=
   let t := e.nextPoll
+  let content := e.provider ++ e.chain.map fun (ev, age, _) => { ev with conf := ev.conf + (age : Int) }
+  let chain' := (e.chain.filter fun (_, _, left) => decide (left > 1)).map fun (ev, age, left) => (ev, age + 1, left - 1)
   let sys1 := advanceTo cfg e.sys t
-  let sys2 := step cfg sys1 (.poll e.provider)
+  let sys2 := step cfg sys1 (.poll content)
   let newEntries := sys2.log.take (sys2.log.length - sys1.log.length)
   let sys3 := if (t - e.start) % Gen.coordinatorCacheCleanNs = 0 then step cfg sys2 .gc else sys2
   let e := { e with sys := sys3, ilog := newEntries ++ e.ilog, nextPoll := t + Gen.coordinatorCadenceNs,
-                    polls := (t, e.provider.length) :: e.polls }
-  let e := e.provider.foldl (fun (e : Eng) ev =>
+                    polls := (t, content.length) :: e.polls, chain := chain' }
+  let e := content.foldl (fun (e : Eng) ev =>
     match lastWrite ev.workID sys1.log with
     | some (_, tw) => (match boundaryTag cfg tw t with | some s => e.tag ("poll-" ++ s) | none => e)
     | none => e) e
-  newEntries.foldl (fun e ent => match ent with
-    | .event _ _ d =>
+  newEntries.reverse.foldl (fun e ent => match ent with
+    | .event _ ev d =>
       let e := e.tag s!"disp:{dispName d}"
+      let e := if d == .unknown && !e.unknownVids.contains (visitedID ev) then
+          { e with unknownVids := visitedID ev :: e.unknownVids } else e
+      let e := if d.processed && e.unknownVids.contains (visitedID ev) then
+          e.tag (if d.updating then "early-event-processed-after-accept" else "early-event-old-after-accept") else e
       if d.processed then { e with nProcessed := e.nProcessed + 1 } else e
     | _ => e) e
 
@@ -267,6 +277,7 @@ def execOp (cfg : Cfg) (utype : String → UpkeepType) (checkC07 : Bool) (e : En
     let e := if checkC07 then e else e.noteSpecI (!a || transmitOk cfg e.ilog now w b) (explainTransmit cfg e.ilog now w b)
     pure { e with nQueries := e.nQueries + 1 }
   | .events evs => pure { e with provider := evs }
+  | .chain evs look => pure { (e.tag "provider:look-back") with chain := e.chain ++ evs.map fun ev => (ev, 0, look) }
   | .restart =>
     let sys' := step cfg e.sys .restart
     pure { (e.tag "restart") with sys := sys', ilog := .restart :: e.ilog, start := now,
@@ -352,6 +363,15 @@ def execOp (cfg : Cfg) (utype : String → UpkeepType) (checkC07 : Bool) (e : En
             else e.tag s!"{pfx}:performed-conditional:after"
           | .other => e.tag s!"{pfx}:performed-other-type"
         else e.tag s!"{pfx}:failed-event:{r.ttype}") e
+    -- shape of the withheld items: adjacent runs, first / last position, repeated work ids
+    let keepFlags := items.map fun it =>
+        if isProp then C07.specPropose utype cfg e.sys.log now it.w it.uid
+        else C07.specProcess utype cfg e.sys.log now it.w it.uid it.b
+    let adjacent := (keepFlags.zip keepFlags.tail).any fun (a, b) => !a && !b
+    let e := if adjacent then e.tag s!"{kind}:adjacent-withheld" else e
+    let e := if keepFlags.head? == some false then e.tag s!"{kind}:withheld-first" else e
+    let e := if keepFlags.getLast? == some false then e.tag s!"{kind}:withheld-last" else e
+    let e := if (items.map (·.w)).eraseDups.length != items.length then e.tag s!"{kind}:repeated-work-id" else e
     let e := e.tag s!"{kind}:n={if items.length = 0 then "0" else if items.length ≤ 10 then "1-10" else if items.length ≤ 50 then "11-50" else "51-200"}"
     pure { e with nQueries := e.nQueries + 1 }
 
@@ -383,14 +403,18 @@ def replay (checkC07 : Bool) (input impl : Json) : R Eng := do
   pure e
 
 /-- stress cases on the real `util.Cache` / coordinator: `ClearExpired` racing a `Set` of an
-    expired key.  Model side: `gc_two_phase_refines` — a write between scan and delete is
-    never lost — so the expected number of lost entries is 0. -/
+    expired key (model side: `gc_two_phase_refines` — a write between scan and delete is
+    never lost), and `Accept` racing the event loop at the poll instant (model side:
+    `atomic_refines` — with both bodies atomic every schedule equals a sequential order, and
+    both sequential orders of the stress end in the same state).  Expected losses: 0. -/
 def raceReply (kind : String) (input impl : Json) : R Reply := do
   let trials ← natF input "trials"
   let lost ← natF impl "lost"
   let ok := decide (lost = 0)
   let msg := if kind == "cache-race" then
       "cache: a fresh entry written during ClearExpired was deleted (scan/delete race)"
+    else if kind == "coordinator-poll-race" then
+      "coordinator: an Accept issued while transmit events were processed was overwritten or overwrote the event's record (the event body's read and write are not atomic w.r.t. Accept)"
     else "coordinator: a report accepted while the cache GC ran was forgotten (scan/delete race)"
   pure { agree := ok, specModel := true, specImpl := ok,
          diff := if ok then "" else s!"{kind}: model loses 0 of {trials}, impl lost {lost}",
